@@ -347,6 +347,8 @@ pub fn run_conc(args: &[String]) -> i32 {
             let tasks = sc["tasks"].as_u64().unwrap_or(2);
             let per = sc["per_task"].as_u64().unwrap_or(3);
             let gate = sc["gate"].as_str().unwrap_or("").to_string();
+            // callers that never give way between their sends (nothing in the statement lets a caller's order depend on that)
+            let yields = sc["yield"].as_bool().unwrap_or(true);
             let mut notes: Vec<String> = Vec::new();
             let mk_msg = |t: u64, k: u64| -> OwnedTerm {
                 let size = ((t * 37 + k * 101) % 5) * 300;
@@ -402,7 +404,9 @@ pub fn run_conc(args: &[String]) -> i32 {
                         if n.send(&r, m).await.is_ok() {
                             ok += 1;
                         }
-                        tokio::task::yield_now().await;
+                        if yields {
+                            tokio::task::yield_now().await;
+                        }
                     }
                     ok
                 }));
@@ -414,7 +418,7 @@ pub fn run_conc(args: &[String]) -> i32 {
             let want = (tasks * per) as usize;
             let f2 = peer.frames.clone();
             let t0 = std::time::Instant::now();
-            while f2.lock().unwrap().len() < want && t0.elapsed() < Duration::from_millis(1500) {
+            while f2.lock().unwrap().len() < want && t0.elapsed() < Duration::from_millis(if want > 200 { 15_000 } else { 1500 }) {
                 tokio::time::sleep(Duration::from_millis(2)).await;
             }
             let frames: Vec<Value> = peer.frames.lock().unwrap().iter().map(|f| bytes_json(f)).collect();
